@@ -75,6 +75,8 @@ type Run struct {
 	Rule        string
 	Replaying   bool
 
+	noProgressOff atomic.Bool
+
 	watch sync.Map // worker id -> *watchEntry
 }
 
@@ -209,9 +211,45 @@ func (r *Run) End(worker int) {
 // HangLimit is deliberately enormous compared with the microsecond-scale calls being made.
 var HangLimit = 120 * time.Second
 
+// NoProgressLimit: a run none of whose counters moves for this long is stuck inside a library call that is not
+// bracketed by Begin/End (or in a harness bug); either way it must end with a verdict instead of hanging.
+var NoProgressLimit = 6 * time.Minute
+
+// WatchProgress can be cleared by a check whose main goroutine legitimately waits for long (C18's parent process).
+func (r *Run) WatchProgress(on bool) { r.noProgressOff.Store(!on) }
+
+func (r *Run) progress() int64 {
+	return r.Evaluations.Load() + r.States.Load() + r.Transitions.Load() + r.Traces.Load()
+}
+
 func (r *Run) watchdog() {
+	lastProgress, lastChange := r.progress(), time.Now()
 	for {
 		time.Sleep(2 * time.Second)
+		if p := r.progress(); p != lastProgress {
+			lastProgress, lastChange = p, time.Now()
+		} else if !r.noProgressOff.Load() && time.Since(lastChange) > NoProgressLimit {
+			buf := make([]byte, 1<<20)
+			buf = buf[:runtime.Stack(buf, true)]
+			os.MkdirAll(filepath.Join(Root, "replays"), 0o755)
+			dump := filepath.Join(Root, "replays", r.Property+"-stuck-goroutines.txt")
+			os.WriteFile(dump, buf, 0o644)
+			site := "unknown"
+			for _, l := range strings.Split(string(buf), "\n") {
+				if strings.HasPrefix(l, "github.com/go-i2p/common/") {
+					site = strings.TrimPrefix(l, "github.com/go-i2p/common/")
+					if i := strings.LastIndexByte(site, '('); i > 0 {
+						site = site[:i]
+					}
+					break
+				}
+			}
+			fmt.Printf("HANG: no progress for %v; goroutine dump in %s\n", NoProgressLimit, dump)
+			r.Capped.Store(true)
+			r.Violate(r.Property+"|hang|no-progress|"+site, fmt.Sprintf("the check made no progress for %v: a library call does not return (innermost library frame of the first stuck goroutine: %s; all goroutines in %s)", NoProgressLimit, site, dump),
+				Case{Kind: "hang", Args: map[string]string{"desc": site}})
+			os.Exit(r.Finish())
+		}
 		now := time.Now().UnixNano()
 		r.watch.Range(func(k, v any) bool {
 			w := v.(*watchEntry)
@@ -222,12 +260,11 @@ func (r *Run) watchdog() {
 					d = f()
 				}
 				fmt.Printf("HANG: a single library call exceeded %v: %s\n", HangLimit, d)
-				if r.Property == "C04" {
-					r.Violate("C04|hang|"+firstField(d), "call did not return within "+HangLimit.String()+": "+d,
-						Case{Kind: "hang", Args: map[string]string{"desc": d}})
-					os.Exit(r.Finish())
-				}
-				os.Exit(3)
+				// a library call that never returns violates "returns normally" whichever property's check made it
+				r.Capped.Store(true)
+				r.Violate(r.Property+"|hang|"+firstField(d), "call did not return within "+HangLimit.String()+": "+d,
+					Case{Kind: "hang", Args: map[string]string{"desc": d}})
+				os.Exit(r.Finish())
 			}
 			return true
 		})
